@@ -6,6 +6,7 @@ tools/seed_validate.sh and tools/mutant.sh were run): {"confirmed": true, "caugh
 """
 import json, os, sys
 
+COMPACT = "--compact" in sys.argv
 ROOT = os.path.join(os.path.dirname(os.path.abspath(__file__)), "..", "seeded")
 
 
@@ -18,8 +19,13 @@ def main():
             continue
         m = json.load(open(p))
         v = m.get("verif", {})
-        summ = " ".join(str(m.get("summary", "")).split()).replace("|", "/")[:260]
+        summ = " ".join(str(m.get("summary", "")).split()).replace("|", "/")[:(90 if COMPACT else 260)]
         cb = v.get("caught_by", "?")
+        if v.get("obsolete"):
+            cb = "%s; NOW: %s" % (cb, v["obsolete"])
+        if v.get("rebased"):
+            cb = "%s; %s" % (cb, v["rebased"])
+        cb = cb.replace("|", "/")
         if v.get("first_run") == "missed":
             missed_first += 1
         if cb.startswith("NOT"):
